@@ -22,6 +22,7 @@
 #include <algorithm>
 #include <array>
 #include <cstring>
+#include <limits>
 #include <random>
 #include <sstream>
 
@@ -94,7 +95,12 @@ int Util::parseSize(const std::string& input, int64_t* output) {
     auto num = istr.substr(pos, unit_pos - pos);
     auto unit = istr.c_str()[unit_pos];
 
-    double v;
+    // Plain decimal numbers only: no exponents, hex floats, "inf" or "nan"
+    if (num.find_first_not_of("0123456789.") != std::string::npos) {
+      return -1;
+    }
+
+    long double v;
     try {
       v = std::stold(num, &end_pos);
     } catch (...) {
@@ -122,10 +128,15 @@ int Util::parseSize(const std::string& input, int64_t* output) {
       default:
         return -1;
     }
-    size += v;
+    // The result has to fit an int64_t
+    if (!(v + size <= static_cast<long double>(
+                          std::numeric_limits<int64_t>::max()))) {
+      return -1;
+    }
+    size += static_cast<uint64_t>(v);
     pos = unit_pos + 1;
   }
-  *output = is_neg ? -size : size;
+  *output = is_neg ? -static_cast<int64_t>(size) : static_cast<int64_t>(size);
   return 0;
 }
 
@@ -135,8 +146,9 @@ int Util::parseSizeOrPercent(
     int64_t total) {
   try {
     if (input.size() > 0 && input.at(input.size() - 1) == '%') {
-      int64_t pct = std::stoi(input.substr(0, input.size() - 1));
-      if (pct < 0 || pct > 100) {
+      size_t pct_end = 0;
+      int64_t pct = std::stoi(input.substr(0, input.size() - 1), &pct_end);
+      if (pct_end != input.size() - 1 || pct < 0 || pct > 100) {
         return -1;
       }
 
@@ -149,6 +161,9 @@ int Util::parseSizeOrPercent(
       // compat - a bare number is interpreted as megabytes
       v = std::stoll(input, &end_pos);
       if (end_pos == input.length()) {
+        if (v < 0 || v > (std::numeric_limits<int64_t>::max() >> 20)) {
+          return -1;
+        }
         *output = v << 20;
         return 0;
       }
